@@ -75,6 +75,8 @@ func C01(c *core.Ctx) {
 		{Kind: "lpub", Topic: "a/b", QoS: 1, Payload: "lp"}, {Kind: "lunsub", Client: "L", Filters: []string{"a/#"}},
 		// retained publishes are forwarded like any other, the empty one that clears the topic included
 		pubr("B", "a/b", 0, 0, "r1"), pubr("B", "a/b", 1, 35, ""),
+		// '$' is an ordinary character below the first level
+		pub("B", "a/$x", 1, 36, "dollar-level"),
 		// one UNSUBSCRIBE with several filters, held ones last
 		{Kind: "unsub", Client: "A", ID: 19, Filters: []string{"q/1", "q/2", "q/3", "a/+", "#"}},
 	}
